@@ -161,9 +161,13 @@ def r17_1(ctx):
     helper = [n.id for n in gr.nodes if n.ast is not None and n.kind == "stmt" and any(call_name(c) == "_helper_rename_folder" for c in calls_in(n.ast))]
     ctx.require(helper, "Mailbox.rename: call of _helper_rename_folder not found")
 
+    # the mailbox being renamed: the parameter `old_name`, or `.name` of the local bound to get_mailbox(old_name)
+    src_locals = {s.targets[0].id for s in body_walk(rn.node) if isinstance(s, ast.Assign) and isinstance(s.targets[0], ast.Name) and isinstance(strip_await(s.value), ast.Call) and call_name(strip_await(s.value)) == "get_mailbox" and [norm(a) for a in strip_await(s.value).args] == ["old_name"]}
+    olds = {"old_name"} | {f"{v}.name" for v in src_locals}
+
     def _own_subtree_test(e):
         for c in ast.walk(e):
-            if isinstance(c, ast.Call) and call_name(c) == "startswith" and norm(call_recv(c)) == "new_name" and c.args and isinstance(c.args[0], ast.BinOp) and isinstance(c.args[0].op, ast.Add) and norm(c.args[0].left) in ("mbox.name", "old_name") and isinstance(c.args[0].right, ast.Constant) and c.args[0].right.value == "/":
+            if isinstance(c, ast.Call) and call_name(c) == "startswith" and norm(call_recv(c)) == "new_name" and c.args and isinstance(c.args[0], ast.BinOp) and isinstance(c.args[0].op, ast.Add) and norm(c.args[0].left) in olds and isinstance(c.args[0].right, ast.Constant) and c.args[0].right.value == "/":
                 return True
         return False
 
